@@ -118,6 +118,17 @@ def r19_2(run, model):
                 ok = "ends_with" not in t
                 run.ob("R19.2", "entry function test is exact", ok, site(GOC, l["sp"]), f"is_entry = {t}",
                        witness="a function `main` in package Lib (Lib::main) is also renamed to main0: duplicate definition")
+                # whatever the test is, it must compare whole path segments: a suffix/prefix/substring test on the bare identifier
+                # also captures `domain`, `remain`, …
+                partial = []
+                for c in S.walk(l["init"]):
+                    if c["k"] == "MethodCall" and c["method"] in ("ends_with", "starts_with", "contains") and c["args"]:
+                        lit = [x["value"] for x in S.walk(c["args"][0]) if x["k"] == "Lit" and x.get("lit") == "Str"]
+                        if not lit or (c["method"] == "ends_with" and not lit[0].startswith("::")) or (c["method"] == "starts_with" and not lit[0].endswith("::")) or c["method"] == "contains":
+                            partial.append(f"{c['method']}({lit[0] if lit else '?'})")
+                run.ob("R19.2", "entry function test compares whole names", not partial, site(GOC, l["sp"]),
+                       f"is_entry = {t}; partial-name tests: {partial or 'none'}",
+                       witness="fn domain() / fn remain() are emitted as func main0 while their call sites still say domain(..): undefined function, duplicate main0")
 
 
 def r19_3(run, model):
@@ -187,7 +198,46 @@ def r19_4(run, model):
                     run.ob("R19.4", f"{name}|TArray encodes its length", ok, site(rel, arm["sp"]), "array name contains the length" if ok else "length missing")
 
 
+def r19_5(run, model):
+    run.rule("R19.5", "fresh names are discriminated by the generator's own counter: in every function that bumps a counter field and formats a "
+                      "name, each format! takes the counter value read in this call (`self.F`, `self.F.get()` or a local bound to exactly that), "
+                      "never a value derived from a parameter")
+    n = 0
+    for f in model.fns():
+        if f.body is None or not f.file.startswith("crates/compiler/src/") or "/tests/" in f.file:
+            continue
+        counters = set()
+        for x in S.walk(f.body):
+            if x["k"] == "Binary" and x["op"] == "+=" and x["left"]["k"] == "Field" and S.is_path(x["left"]["base"], "self"):
+                counters.add(x["left"]["member"])
+            if x["k"] == "MethodCall" and x["method"] == "set" and x["recv"]["k"] == "Field" and S.is_path(x["recv"]["base"], "self") and \
+                    any(b["k"] == "Binary" and b["op"] == "+" for b in S.walk(x["args"][0])):
+                counters.add(x["recv"]["member"])
+        fmts = [m for m in S.walk(f.body) if m["k"] == "Macro" and m["name"] == "format" and m.get("args")]
+        if not counters or not fmts:
+            continue
+        lets = {}
+        for l in S.find(f.body, "Local"):
+            if l.get("init") is not None and l["pat"]["k"] == "PIdent":
+                lets[l["pat"]["name"]] = l["init"]
+
+        def is_counter_read(e):
+            t = S.norm_ws(run.facts.text(f.file, e["sp"]))
+            return any(t in (f"self.{c}", f"self.{c}.get()") for c in counters)
+        for m in fmts:
+            n += 1
+            ok = False
+            for a in m["args"][1:]:
+                if is_counter_read(a) or (a["k"] == "Path" and len(a["segs"]) == 1 and a["segs"][0] in lets and is_counter_read(lets[a["segs"][0]])):
+                    ok = True
+            run.ob("R19.5", f"{f.qual}|name carries the counter", ok, site(f.file, m["sp"]),
+                   f"format!({m.get('tokens', '')[:70]}) with counters {sorted(counters)}",
+                   witness="a let-bound closure in a generic function instantiated at two types: both instances get closure_env_get_7, one struct definition replaces the other")
+    run.floor("name-formatting sites in counter-bumping functions", n, 2)
+
+
 def run(run, model):
+    run.try_rule(r19_5, model)
     run.try_rule(r19_1, model)
     run.try_rule(r19_2, model)
     run.try_rule(r19_3, model)
